@@ -51,6 +51,14 @@ def subharnesses(tier):
                                 'more_events': [['remove_app', who]]}
                         subs.append(('%s-D%d-A%d-n%d-%s-rmserver_rmapp%d' % (
                             topo, D, A, count, g1.ptag(pl), who), spec))
+                if placed:
+                    for st in ('down', 'frozen'):
+                        spec = {'topo': topo, 'D': D, 'servers': [{}, {}],
+                                'apps': apps, 'igroups': {'g': count},
+                                'event': ['server_state', pl[placed[0]], st],
+                                'more_events': [['blacklist', placed[0]]]}
+                        subs.append(('%s-D%d-A%d-n%d-%s-%s_blacklist' % (
+                            topo, D, A, count, g1.ptag(pl), st), spec))
                 # members live in an allocation with a utilisation cap: those
                 # beyond it are unranked (removed if placed, never placed)
                 if count == 2:
